@@ -225,15 +225,19 @@ func ValidateLogConfig(cfg *configpb.LogConfig) (*ValidatedLogConfig, error) {
 			return nil, errors.New("missing ctfe_storage_connection_string when issuance chain storage backend is CTFE")
 		}
 		// Validate CTFEStorageConnectionString
+		// The storage layer splits the string at "://" and needs exactly a known scheme and a data source name.
+		conn := strings.Split(cfg.CtfeStorageConnectionString, "://")
 		if strings.HasPrefix(cfg.CtfeStorageConnectionString, "mysql") {
-			conn := strings.Split(cfg.CtfeStorageConnectionString, "://")
-			if len(conn) != 2 {
+			if len(conn) != 2 || conn[0] != "mysql" {
 				return nil, errors.New("failed to parse ctfe_storage_connection_string for mysql driver")
 			}
 			if _, err := mysql.ParseDSN(conn[1]); err != nil {
 				return nil, errors.New("failed to parse ctfe_storage_connection_string for mysql driver")
 			}
 		} else if strings.HasPrefix(cfg.CtfeStorageConnectionString, "postgres") {
+			if len(conn) != 2 || (conn[0] != "postgresql" && conn[0] != "postgres") {
+				return nil, errors.New("failed to parse ctfe_storage_connection_string for postgresql pgx driver")
+			}
 			if _, err := pgconn.ParseConfig(cfg.CtfeStorageConnectionString); err != nil {
 				return nil, errors.New("failed to parse ctfe_storage_connection_string for postgresql pgx driver")
 			}
